@@ -202,6 +202,14 @@ def decide_build(pid, spec, b, tier, oc, seed):
     r = vrun.run_verus(path, modules=mods, threads=int(os.environ.get('VERIF_THREADS', '8')), extra=xtra)
     oc.cmds.append(r.cmd)
     a = vrun.analyse(text, regions, r)
+    if any(e['kind'] == 'rlimit' for e in a['errors']) or (r.json is None and 'imeout' in (r.raw_stderr or '')):
+        # resource-limit hits are load-dependent: retry once with a larger budget before calling it undecided
+        r2 = vrun.run_verus(path, modules=mods, threads=int(os.environ.get('VERIF_THREADS', '8')), extra=xtra, rlimit=40)
+        a2 = vrun.analyse(text, regions, r2)
+        if r2.json is not None and len(a2['errors']) <= len(a['errors']):
+            oc.notes.append('%s: rlimit hit on first run, retried with --rlimit 40' % bname)
+            r, a = r2, a2
+            oc.cmds.append(r.cmd)
     if r.json is None:
         oc.undecided.append('verus produced no result for build %s (exit %s): %s' % (bname, r.returncode, r.raw_stderr[-400:]))
         return
